@@ -104,10 +104,10 @@ def rename (kw : List String) (r : Reg) (i : Nat) (new : String) (renameOld : Bo
       if !isValidName kw new then (r1, .error .invalidName)
       else ((renamePlain r1 m.name new).1, .ok ())
 
-/-- `System.close_model` -/
+/-- `System.close_model`: closing a model that is not registered (closed already) does nothing -/
 def close (r : Reg) (i : Nat) : Reg × Except Rej Unit :=
   match lookupId r.models i with
-  | none => (r, .error .noSuchModel)
+  | none => (r, .ok ())
   | some m =>
     ({ r with models := eraseName r.models m.name,
               current := if r.current = some i then none else r.current }, .ok ())
